@@ -151,12 +151,21 @@ def cases_S(tier, seed):
     for nx, (g, n, T), (p_f, p_i) in itertools.product(nxs, GRIDS, pairs[:2]):  # the two-phase class: its own simulate()
         out.append({"part": "S", "cls": "two", "table": "T_ship_gas", "p_f": p_f, "p_i": p_i, "nx": nx,
                     "grid": g, "n": n, "T": T, "sched": "scalar", "seed": seed})
+    for (cls_, tab_), nx, (g, n, T), t0, sc in itertools.product((("ideal", None), ("single", "T_ship_gas"), ("single", "A_kink")),
+                                                                [8, 50], [("quadratic", 30, 3.0), ("irregular", 30, 3.0), ("integer", 12, 0)],
+                                                                [1e3, 1e6, 1.7e9], ["scalar", "downup"]):
+        if cls_ == "ideal" and sc != "scalar":
+            continue
+        out.append({"part": "S", "cls": cls_, "table": tab_, "p_f": 1000.0, "p_i": 8000.0, "nx": nx, "grid": g, "n": n, "T": T,
+                    "sched": sc, "seed": seed, "t0": t0})
     out.sort(key=lambda c: c["nx"] * c["n"])
     return out
 
 
 def _setup(case):
     t = sim.time_grid(case["grid"], case["n"], case["T"], case["seed"])
+    if case.get("t0"):
+        t = t + case["t0"]  # a clock that does not start at zero: only the increments enter the update
     p_min = tables.table_range(case["table"])[0] if case["table"] else 0.0
     sched = sim.schedule(case["sched"], len(t), case["p_f"], case["p_i"], p_min)
     res = sim.make_reservoir(case["cls"], case["nx"], case["p_f"], case["p_i"], case["table"])
@@ -260,6 +269,9 @@ def run(ctx):
         "E_executions": sum(r.get("executions", 0) for r in rE),
         "E_iterative_solver_choice_points_per_run": max([r.get("choice_points", 0) for r in rE] + [0]),
         "E_direct_solver_calls_per_run": max([r.get("direct_calls", 0) for r in rE] + [0]),
+        # neither an intercepted iterative entry point nor a counted direct one was called: the linear solve is code the
+        # harness does not see (a hand-written elimination, say) and E explored the baseline only - S alone decides then
+        "E_solver_unobserved": any(r.get("choice_points", 0) == 0 and r.get("direct_calls", 0) == 0 for r in rE),
         "E_outcomes": e_out,
         "explanation": "S: residual of the documented implicit update on every step of every run. "
                        "E: every iterative scipy.sparse.linalg entry point is intercepted; with a direct "
